@@ -99,9 +99,27 @@ func EndLockLog() (leaked []string) {
 	return leaked
 }
 
+var onLock atomic.Pointer[func(path string)]
+var inOnLock atomic.Bool
+
+// SetOnLock installs (nil: removes) a function called before every lock acquisition that reaches the seam, with the
+// path of the file about to be locked.  Acquisitions made by the function itself are not reported to it.
+func SetOnLock(f func(path string)) {
+	if f == nil {
+		onLock.Store(nil)
+	} else {
+		onLock.Store(&f)
+	}
+}
+
 // Flock replaces syscall.Flock in package whispertool.
 func Flock(fd int, how int) error {
 	FlockCalls.Add(1)
+	if h := onLock.Load(); h != nil && how&(syscall.LOCK_EX|syscall.LOCK_SH) != 0 && inOnLock.CompareAndSwap(false, true) {
+		p, _ := os.Readlink(fmt.Sprintf("/proc/self/fd/%d", fd))
+		(*h)(p)
+		inOnLock.Store(false)
+	}
 	if how&(syscall.LOCK_EX|syscall.LOCK_SH) != 0 {
 		lockLog.mu.Lock()
 		if lockLog.on {
